@@ -457,6 +457,137 @@ def impl_read_filtered(a):
     except Exception:
         return [2]
 
+
+# ---- histories on live objects -----------------------------------------------------------------
+# op = [code, key, field, [value] | [], n]:  0 lookup (n: 0 _find_field, 1 interpreter Field.value, 2 template field())
+#   1 set field   2 delete field   3 set ([target]) / remove ([]) the crossref   4 bd = BibliographyData(bd.entries.items())
+#   5 bd.entries[key] = a new Entry (object id n) with only title = value
+HOP_SCH = ('T', 'N', 'S', 'S', ('O', 'S'), 'N')
+
+def impl_history(a):
+    """one set of live Entry / BibliographyData objects; the operations are executed in order; every look-up is answered
+    by the code on the objects as they are at that moment"""
+    from pybtex.database import BibliographyData, Entry
+    from pybtex.bibtex.interpreter import Interpreter, Field, MissingField
+    from pybtex.style.template import field, FieldIsMissing
+    from pybtex import errors
+    bd, _ = build(a[0])
+    out = []
+    for op in a[1]:
+        code, key, name = op[0], S(op[1]), S(op[2])
+        val = S(op[3][0]) if op[3] else None
+        if code == 4:
+            with errors.capture():
+                bd = BibliographyData(list(bd.entries.items()))
+            continue
+        if code not in (0, 1, 2, 3, 5):
+            with errors.capture():
+                bd = BibliographyData(list(bd.entries.items()))
+            continue
+        if key not in bd.entries:
+            if code == 0:
+                out.append([])
+            continue
+        e = bd.entries[key]
+        if code == 0:
+            try:
+                via = op[4] % 3
+                if via == 0:
+                    r = [0, [norm(e._find_field(name, bd))]]
+                elif via == 1:
+                    it = Interpreter(None, None); it.bib_data = bd; it.current_entry = e
+                    v = Field(it, name).value()
+                    r = [0, []] if isinstance(v, MissingField) else [0, [norm(str(v))]]
+                else:
+                    r = [0, [norm(field(name, raw=True).format_data({'entry': e, 'bib_data': bd}))]]
+            except (KeyError, FieldIsMissing):
+                r = [0, []]
+            except _Timeout:
+                raise
+            except Exception:
+                r = [2]
+            out.append([r])
+        elif code == 1:
+            e.fields[name] = val or ''
+        elif code == 2:
+            if name in e.fields:
+                del e.fields[name]
+        elif code == 3:
+            if val is not None:
+                e.fields['crossref'] = val
+            elif 'crossref' in e.fields:
+                del e.fields['crossref']
+        elif code == 5:
+            bd.entries[key] = Entry('misc', fields=[('title', val or '')])
+    return out
+
+def history_expected(a):
+    """the same history on the spec, in plain Python: the nearest definition along the CURRENT chain"""
+    ndb, _ = norm_spec(a[0])
+    objs = {}
+    slots = []            # [key, object id] in order, one per (case-insensitive) key
+    seen = set()
+    for k, e in ndb:
+        if S(k).lower() in seen:
+            continue
+        seen.add(S(k).lower())
+        objs.setdefault(e[0], [e[0], [[S(f), S(v)] for f, v in e[1]], [[S(r), [S(p) for p in ps]] for r, ps in e[2]]])
+        slots.append([S(k), e[0]])
+    def find(key):
+        for sl in slots:
+            if sl[0].lower() == key.lower():
+                return sl
+        return None
+    def setf(o, f, v):
+        for p in o[1]:
+            if p[0].lower() == f.lower():
+                p[0], p[1] = f, v
+                return
+        o[1].append([f, v])
+    def delf(o, f):
+        o[1][:] = [p for p in o[1] if p[0].lower() != f.lower()]
+    def look(o, f):
+        cur, visited = o, set()
+        while cur is not None and cur[0] not in visited:
+            visited.add(cur[0])
+            for p in cur[1]:
+                if p[0].lower() == f.lower():
+                    return p[1]
+            for r, ps in cur[2]:
+                if r.lower() == f.lower():
+                    return ' and '.join(ps)
+            cr = [p[1] for p in cur[1] if p[0].lower() == 'crossref']
+            sl = find(cr[0]) if cr else None
+            cur = objs[sl[1]] if sl else None
+        return None
+    res = []
+    for op in a[1]:
+        code, key, name = op[0], S(op[1]), S(op[2])
+        val = S(op[3][0]) if op[3] else None
+        if code == 4 or code not in (0, 1, 2, 3, 5):
+            continue
+        sl = find(key)
+        if sl is None:
+            if code == 0:
+                res.append(('absent', None))
+            continue
+        o = objs[sl[1]]
+        if code == 0:
+            res.append(('value', look(o, name)))
+        elif code == 1:
+            setf(o, name, val or '')
+        elif code == 2:
+            delf(o, name)
+        elif code == 3:
+            if val is not None:
+                setf(o, 'crossref', val)
+            else:
+                delf(o, 'crossref')
+        elif code == 5:
+            objs[op[4]] = [op[4], [['title', val or '']], []]
+            sl[0], sl[1] = key, op[4]
+    return res
+
 FUNCS = {
     1: ('Entry._find_field', guarded(impl_find_field), ('T', DB_SCH, E_SCH, 'S', 'B')),
     2: ('interpreter Field.value / Crossref.value', guarded(impl_field_value), ('T', DB_SCH, E_SCH, 'S')),
@@ -469,6 +600,7 @@ FUNCS = {
     10: ('end to end: .bib text -> BibTeX parser -> BST interpreter / pybtex.format_from_string(stock style, plaintext)', guarded(impl_e2e), ('T', DB_SCH, ('L', 'S'), 'I', 'N')),
     11: ('bibtex Parser(wanted_entries=citations).parse_string: the filtered database', guarded(impl_read_filtered), ('T', DB_SCH, ('O', ('L', 'S')))),
     12: ('end to end, person role author: BST field vs names() of the stock Python styles', guarded(impl_e2e_roles), ('T', DB_SCH, ('L', 'S'), 'I', 'N')),
+    13: ('history of look-ups and edits on live Entry / BibliographyData objects', guarded(impl_history), ('T', DB_SCH, ('L', HOP_SCH))),
     9: ('Entry._find_field, every entry x every name', guarded(impl_find_all), ('T', DB_SCH, ('L', 'S'), 'B')),
 }
 
@@ -551,6 +683,23 @@ def oracle(fn, a, out):
             got = S(out[1]) if out[0] == 0 else None
         if got != exp:
             return 'field %r: expected %r (own field, else person role, else nearest definition along the crossref chain, else missing), got %r' % (name, exp, got)
+        return None
+    if fn == 13:
+        if out == [2]:
+            return 'history crashed'
+        exp = history_expected(a)
+        if len(exp) != len(out):
+            return 'malformed implementation output'
+        looks = [op for op in a[1] if op[0] == 0]
+        for i, ((kind, v), o, op) in enumerate(zip(exp, out, looks)):
+            if kind == 'absent':
+                continue
+            if not o or o[0] == [2]:
+                return 'look-up %d (%s of %r) crashed' % (i, S(op[2]), S(op[1]))
+            got = S(o[0][1][0]) if o[0][1] else None
+            if got != v:
+                return ('look-up %d in the history (%r of entry %r through %s): the current graph gives %r (own field, else role, else nearest '
+                        'definition along the chain as it is NOW), the code answered %r' % (i, S(op[2]), S(op[1]), ['_find_field', 'Field.value', 'field()'][op[4] % 3], v, got))
         return None
     ndb, _ = norm_spec(a[0])
     table = _table(ndb)
@@ -898,6 +1047,54 @@ def gen(tier, rng):
     f5bib = [['k0', [0, [['crossref', 'k1']], []]], ['k1', [1, [['title', 'T1'], ['year', 'Y1'], ['note', 'N1']], []]]]
     yield ('pinned', 10, [f5bib, ['k0', 'k1'], 2, 0]); yield ('pinned', 10, [f5bib, ['*'], 1, 1])
     yield ('pinned', 10, [[['k0', [0, [['crossref', 'k0']], []]], ['k1', [1, [['crossref', 'k0'], ['note', 'N1']], []]]], ['k1', 'k0'], 2, 2])
+    # ---- mutation_history: look-ups interleaved with edits on ONE set of live objects
+    def hop(code, key='', fld='', val=None, n=0):
+        return [code, key, fld, [] if val is None else [val], n]
+    hdb = [['c', mk(0, crossref='p')], ['p', mk(1, title=True, editor=True, crossref='g')], ['g', mk(2, year=True)]]
+    L = lambda k, f='title', via=0: hop(0, k, f, None, via)
+    pinned_hist = [
+        [L('c'), hop(1, 'p', 'title', 'X'), L('c'), L('c', via=1), L('c', via=2)],                 # parent's field edited
+        [L('c'), hop(2, 'p', 'title'), L('c'), L('c', via=1)],                                        # ... deleted
+        [L('c', 'year'), hop(3, 'c', '', 'g'), L('c'), L('c', 'year'), hop(3, 'c', '', None), L('c', 'year'), L('c', 'year', 2)],   # retargeted, removed
+        [L('c'), hop(5, 'p', '', 'R', 7), L('c'), L('c', 'year'), L('c', 'editor', 1)],             # parent entry replaced
+        [L('c'), hop(4), L('c'), hop(1, 'P', 'TITLE', 'Z'), hop(4), L('c', via=2)],                  # a second BibliographyData
+        [L('c'), hop(1, 'c', 'title', 'own'), L('c'), L('c', via=1), hop(2, 'c', 'title'), L('c')],  # the child gets / loses its own value
+        [L('c', 'note'), hop(1, 'g', 'note', 'late'), L('c', 'note'), L('c', 'note', 1), L('c', 'note', 2)],   # missing first, defined later
+        [L('c', 'editor'), hop(1, 'c', 'editor', 'F'), L('c', 'editor'), hop(3, 'g', '', 'c'), L('g', 'title'), L('g', 'nothing')],   # cycle closed later
+    ]
+    for h in pinned_hist:
+        yield ('mutation_history', 13, [hdb, h])
+    # exhaustive: every history of <= 3 operations over a 14-letter operation alphabet on child -> parent (-> grandparent)
+    alpha = [L('c', via=0), L('c', via=1), L('c', via=2), L('p'), hop(1, 'p', 'title', 'X'), hop(2, 'p', 'title'), hop(1, 'c', 'title', 'own'),
+             hop(2, 'c', 'title'), hop(3, 'c', '', None), hop(3, 'c', '', 'g'), hop(3, 'c', '', 'p'), hop(4), hop(5, 'p', '', 'R', 8), hop(1, 'g', 'title', 'G')]
+    for n in (1, 2, 3):
+        for seq in itertools.product(alpha, repeat=n):
+            if any(o[0] == 0 for o in seq):
+                yield ('mutation_history', 13, [hdb, list(seq) + [L('c', via=n % 3)]])
+    # random longer histories on random graphs
+    for i in range(1500 if quick else 15000):
+        n = rng.choice([2, 3, 4, 5])
+        db = rand_db(rng, n, p_dangle=0.05, alias=rng.random() < 0.15)
+        keys = [k for k, _ in db]
+        ops = []
+        for j in range(rng.randint(3, 12)):
+            k = rng.choice(keys); k = k.swapcase() if rng.random() < 0.15 else k
+            f = rng.choice(['title', 'title', 'editor', 'year', 'TITLE', 'note'])
+            c = rng.choice([0, 0, 0, 0, 1, 1, 2, 3, 3, 4, 5])
+            if c == 0:
+                ops.append(hop(0, k, f, None, rng.randrange(3)))
+            elif c == 1:
+                ops.append(hop(1, k, f, 'V%d' % j))
+            elif c == 2:
+                ops.append(hop(2, k, f))
+            elif c == 3:
+                ops.append(hop(3, k, '', rng.choice([None, rng.choice(keys), rng.choice(keys).upper(), 'nosuch'])))
+            elif c == 4:
+                ops.append(hop(4))
+            else:
+                ops.append(hop(5, k, '', 'R%d' % j, 100 + j))
+        ops.append(hop(0, rng.choice(keys), rng.choice(['title', 'editor', 'year']), None, rng.randrange(3)))
+        yield ('mutation_history', 13, [db, ops])
     # ---- long chains and big cycles (termination; Python recursion stays well below its limit here)
     for n in ([20, 60] if quick else [20, 60, 150]):
         ch = [['k%d' % i, mk(i, crossref='k%d' % (i + 1))] for i in range(n)] + [['k%d' % n, mk(n, title=True)]]
@@ -939,7 +1136,10 @@ def describe(fn, a):
     def ent(e):
         return {'object': e[0], 'fields': {S(k): S(v) for k, v in e[1]}, 'persons': {S(r): [S(p) for p in ps] for r, ps in e[2]}}
     d = {'function': FUNCS[fn][0], 'database': [[S(k), ent(e)] for k, e in a[0]]}
-    if fn == 12:
+    if fn == 13:
+        names = {0: 'lookup', 1: 'set_field', 2: 'del_field', 3: 'set_crossref', 4: 'new BibliographyData', 5: 'replace entry'}
+        d['history'] = [[names.get(o[0], 'new BibliographyData'), S(o[1]), S(o[2]), S(o[3][0]) if o[3] else None, o[4]] for o in a[1]]
+    elif fn == 12:
         d['python_style'] = E2E_STYLES[a[3] % len(E2E_STYLES)] if len(a) > 3 else 'unsrt'; d['citations'] = [S(c) for c in a[1]]; d['min_crossrefs'] = a[2]; d['bib'] = bib_text(e2e_norm(a[0], roles=True), roles=True)
     elif fn == 11:
         d['wanted_entries'] = [S(c) for c in a[1][0]] if a[1] else None; d['bib'] = bib_text(e2e_norm(a[0]))
@@ -1083,6 +1283,8 @@ RULE = ('exhaustive: every cross-reference graph over n <= 3 entries (crossref o
         'empty values, roles without persons, citations incl. *, missing and repeated ones, min_crossrefs -1..3. filtered_chains: from .bib text, '
         'both engines reading the file filtered by the citations -- chains of length 0..3 x which ancestor defines the field x every citation list '
         '(child + any subset of ancestors, *) x min_crossrefs 1..3 x four stock styles, children first; the same through Parser(wanted_entries). '
+        'mutation_history: look-ups interleaved with edits (set/delete field, set/remove crossref, replace an entry, new BibliographyData) on one set of live objects, '
+        'every history of <= 3 operations over a 14-operation alphabet plus random histories of 4..13 operations, each look-up through _find_field / Field.value / field(). '
         'person_roles: chains 1..3 x every assignment of the role author x citation lists, BST field vs names() of the stock styles. long: chains and '
         'cycles of 20..150 entries. malformed: half of the crossrefs dangling. distinct = distinct (function, argument); '
         'non-trivial = the database has at least one crossref field and the call returned.')
@@ -1093,7 +1295,8 @@ TRUSTED_BASE = ['modelled (not verified) code: pybtex/database/__init__.py Entry
 ASSUMPTIONS = ['keys and field names are ASCII (str.lower modelled on ASCII)',
                'cross-reference chains stay below CPython\'s recursion limit (498 hops from the top level at the default limit of 1000; deeper chains raise RecursionError); the model has no recursion limit',
                'object identity: two Entry objects with the same identity have the same content (trivially true in Python; a hypothesis ids_wf of the chain theorems)']
-PARTIAL = ['names_inherit_refuted / names_own_partial: the stock styles\' names(role) does not see an inherited person role (known finding FC14a); the statement holds for roles the entry has itself and for every field read through field()',
+PARTIAL = ['lookup_depends_only_on_current_graph is trivially true of the model (it keeps no state); that the code keeps none either (no stale cache after an edit) is established by the mutation_history stream only',
+           'names_inherit_refuted / names_own_partial: the stock styles\' names(role) does not see an inherited person role (known finding FC14a); the statement holds for roles the entry has itself and for every field read through field()',
            'filtered_chain_inherits assumes distinct keys and children-before-parents file order (the other order is finding F13 of C05/C06; Example children_first_needed)',
            'engines_agree / engines_agree_field are about ONE database handed to both engines; that the two engines build their databases differently from .bib text (BST: author/editor are fields, Python: persons) is outside the model and is covered by the end-to-end stream (title/year/note, four stock styles) only',
            'the chain theorems (find_field_spec, inherits_nearest, missing_along_chain) assume object identity ids_wf; find_terminates and own_field_wins do not',
